@@ -1,0 +1,159 @@
+// Heap histories: a list of operations over a table of live handles, executed on a real
+// `Memory`; the answer contains, per operation, the address the operation produced (if
+// any) and, where asked, a complete snapshot of the heap.
+
+use crate::memory::*;
+use crate::memory::verif::*;
+use crate::metadata::*;
+use super::{dec, enc};
+
+fn snapshot_string(mem: &Memory) -> String {
+    let s = mem.verif_snapshot();
+    let cells = s.cells.iter().map(|c| format!("{:#x},{},{},{},{}", c.addr, c.rc, c.kind, if c.payload.is_empty() {"-".to_string()} else {c.payload.clone()},
+                                               c.children.iter().map(|a| format!("{a:#x}")).collect::<Vec<_>>().join("+"))).collect::<Vec<_>>().join("/");
+    let free  = s.free_addrs.iter().zip(s.free_rc.iter()).map(|(a, r)| format!("{a:#x},{r}")).collect::<Vec<_>>().join("/");
+    let syms  = s.symbols.iter().map(|(n, a)| format!("{}={:#x}", enc(n), a)).collect::<Vec<_>>().join("/");
+    let mods  = s.modules.iter().map(|(n, defs, exports)| {
+        format!("{}:{}:{}", enc(n),
+                defs.iter().map(|(k, a)| format!("{}={:#x}", enc(k), a)).collect::<Vec<_>>().join("+"),
+                match exports { None => "*".to_string(), Some(e) => e.iter().map(|x| enc(x)).collect::<Vec<_>>().join("+") })
+    }).collect::<Vec<_>>().join("/");
+    format!("snap {} {} [{}] [{}] [{}] [{}] {}", s.len, s.first_free, cells, free, syms, mods, enc(&s.current))
+}
+
+fn handle(table: &Vec<Option<GcRef>>, s: &str) -> GcRef {
+    if s == "n" {
+        GcRef::nil()
+    }
+    else {
+        table[s.parse::<usize>().expect("bad handle index")].as_ref().expect("dead handle").clone()
+    }
+}
+
+pub fn heap_case(spec: &str) -> String {
+    set_gc_mode(GcMode::Natural);
+    set_monitor(false);
+    let mut mem = Memory::new();
+    let mut table: Vec<Option<GcRef>> = vec![];
+    let mut answers: Vec<String> = vec![];
+    let mut monitor = false;
+
+    for op in spec.split(';') {
+        let w = op.trim().split(' ').collect::<Vec<_>>();
+        if w.is_empty() || w[0].is_empty() {
+            continue;
+        }
+        let mut push = |table: &mut Vec<Option<GcRef>>, r: GcRef| -> String {
+            let a = format!("h{:#x}", r.verif_addr());
+            table.push(Some(r));
+            a
+        };
+        let ans =
+        match w[0] {
+            "monitor" => { monitor = true; set_monitor(true); "ok".to_string() },
+            "gc"      => {
+                let v = w[1];
+                set_gc_mode(if v == "nat" {GcMode::Natural}
+                            else if v == "every" {GcMode::Every}
+                            else if let Some(k) = v.strip_prefix("k") {GcMode::EveryK(k.parse().unwrap())}
+                            else if let Some(s) = v.strip_prefix("prng") {GcMode::Prng(s.parse().unwrap())}
+                            else {panic!("bad gc mode")});
+                "ok".to_string()
+            },
+            "num"    => { let r = mem.allocate_number(w[1].parse().unwrap()); push(&mut table, r) },
+            "chr"    => { let r = mem.allocate_character(char::from_u32(w[1].parse().unwrap()).unwrap()); push(&mut table, r) },
+            "cons"   => { let a = handle(&table, w[1]); let d = handle(&table, w[2]); let r = mem.allocate_cons(a, d); push(&mut table, r) },
+            "sym"    => { let r = mem.symbol_for(&dec(w[1])); push(&mut table, r) },
+            "gensym" => { let r = mem.unique_symbol(); push(&mut table, r) },
+            "trap"   => { let a = handle(&table, w[1]); let d = handle(&table, w[2]); let r = mem.allocate_trap(a, d); push(&mut table, r) },
+            "meta"   => {
+                let x = handle(&table, w[1]);
+                if x.get_meta().is_some() {
+                    "skip".to_string()
+                }
+                else {
+                    let md = Metadata{ read_name: dec(w[2]), location: Location::Stdin{ line: w[3].parse().unwrap(), column: w[4].parse().unwrap() }, documentation: String::new() };
+                    let r = mem.allocate_metadata(x, md);
+                    push(&mut table, r)
+                }
+            },
+            "fun"    => {
+                // fun <l|m> <0|1> <body> <env> <module> <p,p,...|->
+                let kind = if w[1] == "m" {FunctionKind::Macro} else {FunctionKind::Lambda};
+                let rest = w[2] == "1";
+                let body = handle(&table, w[3]);
+                let env  = handle(&table, w[4]);
+                let module = dec(w[5]);
+                let params = if w[6] == "-" {vec![]} else {w[6].split(',').map(|p| handle(&table, p)).collect::<Vec<_>>()};
+                if params.iter().any(|p| !matches!(p.get(), Some(PrimitiveValue::Symbol(_)))) {
+                    "skip".to_string()
+                }
+                else {
+                    let r = mem.allocate_normal_function(kind, rest, body, &params, env, &module);
+                    push(&mut table, r)
+                }
+            },
+            "nat"    => {
+                let kind = if w[1] == "m" {FunctionKind::Macro} else {FunctionKind::Lambda};
+                let n = w[2].parse::<usize>().unwrap();
+                let r = mem.allocate_native_function(kind, (0 .. n).map(|i| format!("p{i}")).collect(), crate::native::list::cons);
+                push(&mut table, r)
+            },
+            "clone"  => { let r = handle(&table, w[1]); push(&mut table, r) },
+            "drop"   => { let i = w[1].parse::<usize>().unwrap(); table[i] = None; "ok".to_string() },
+            "car" | "cdr" => {
+                let x = handle(&table, w[1]);
+                let r = if let Some(PrimitiveValue::Cons(c)) = x.get() { Some(if w[0] == "car" {c.get_car()} else {c.get_cdr()}) } else { None };
+                match r { Some(r) => push(&mut table, r), None => "skip".to_string() }
+            },
+            "unmeta" => { let x = handle(&table, w[1]); let r = x.clone_without_meta(); push(&mut table, r) },
+            "parts"  => {
+                // pushes body, env and every parameter of a function / both bodies of a trap
+                let x = handle(&table, w[1]);
+                let rs =
+                match x.get() {
+                    Some(PrimitiveValue::Function(Function::NormalFunction(f))) => { let mut v = vec![f.get_body(), f.get_env()]; v.extend(f.get_params()); Some(v) },
+                    Some(PrimitiveValue::Trap(t)) => Some(vec![t.get_normal_body(), t.get_trap_body()]),
+                    _ => None,
+                };
+                match rs {
+                    Some(v) => v.into_iter().map(|r| push(&mut table, r)).collect::<Vec<_>>().join(","),
+                    None    => "skip".to_string(),
+                }
+            },
+            "define"    => { let x = handle(&table, w[2]); mem.define_global(&dec(w[1]), x); "ok".to_string() },
+            "undefine"  => { mem.undefine_global(&dec(w[1])); "ok".to_string() },
+            "global"    => {
+                match mem.get_global(&dec(w[1]), &dec(w[2])) {
+                    Ok(r)  => push(&mut table, r),
+                    Err(e) => format!("err {}", match e { ModulError::AmbiguousName(mut v) => { v.sort(); format!("ambiguous:{}", v.iter().map(|x| enc(x)).collect::<Vec<_>>().join("+")) }, ModulError::GlobalNonExistentOrPrivate => "notfound".to_string(), _ => "other".to_string() }),
+                }
+            },
+            "defmodule" => { mem.define_module(&dec(w[1])); "ok".to_string() },
+            "setmodule" => { match mem.set_current_module(&dec(w[1])) { Ok(_) => "ok".to_string(), Err(_) => "nosuch".to_string() } },
+            "export"    => { mem.add_export(&dec(w[1])); "ok".to_string() },
+            "collect"   => { mem.verif_collect(); "ok".to_string() },
+            "snap"      => snapshot_string(&mem),
+            "symeq"     => {
+                let a = handle(&table, w[1]);
+                let b = handle(&table, w[2]);
+                match (a.get(), b.get()) {
+                    (Some(PrimitiveValue::Symbol(x)), Some(PrimitiveValue::Symbol(y))) => if x == y {"eq".to_string()} else {"ne".to_string()},
+                    _ => "skip".to_string(),
+                }
+            },
+            other => panic!("unknown heap op {other}"),
+        };
+        answers.push(ans);
+    }
+
+    let mon = if monitor { monitor_failure().map(|m| enc(&m)).unwrap_or("ok".to_string()) } else { "off".to_string() };
+    let colls = collections();
+    set_gc_mode(GcMode::Natural);
+    set_monitor(false);
+    // handles are dropped before the memory (declaration order: `table` after `mem` would be
+    // wrong), so do it explicitly
+    table.clear();
+    drop(mem);
+    format!("{} | mon {} colls {}", answers.join(" ; "), mon, colls)
+}
